@@ -3,6 +3,7 @@ C04 — Serialiser enforces the size limit exactly and stays inside its buffers.
 -/
 import CoapLite.Lemmas.CodecFwd
 import CoapLite.Lemmas.CopyTrace
+import CoapLite.Lemmas.CodecEncLow
 import CoapLite.Lemmas.Shape.Packet
 import CoapLite.Lemmas.Shape.Global
 
@@ -57,6 +58,40 @@ theorem copies_account_for_output (p : Packet) (limit : Option Nat) (bs : Bytes)
     (h : enc p limit = .ok bs) :
     bs.length = 4 + copied 1 (encTrace p limit) + (if sent p then 1 else 0) :=
   Codec.encTrace_copied p limit bs h
+
+/-! ### low-level model: fixed-width arithmetic, vectors with a capacity, raw copies
+
+`enc` computes in `Nat` and appends lists; "stays inside its buffers" and "no size computation overflows"
+have no content there (the ghost trace above covers the copies' bookkeeping only). `CodecEncLow.encLow`
+(Model/CodecEncLow.lean) is a second transcription of `to_bytes_internal`, statement by statement: `u16`
+subtraction / addition and `usize` additions that PANIC on underflow or overflow, `as u8` truncations,
+`u16::try_from`, `Vec::with_capacity` / `reserve` with Rust's capacity-overflow panic, and each `unsafe`
+block (two `ptr::copy` + `set_len`) as one step that PANICS unless both destination ranges lie inside the
+allocation and the new length does not exceed the capacity. -/
+
+/-- the low-level serialiser computes exactly `enc`, for every message whose option map is what a
+`BTreeMap<u16, _>` can be (`Sorted`, numbers ≤ 65535) and whose size is below 2^63 (`optsSize`: 5 header
+bytes + the value per option instance), under every limit -/
+theorem low_level_serialiser_refines (p : Packet) (limit : Option Nat) (hs : p.options.Sorted)
+    (hk : ∀ kv ∈ p.options, kv.1 ≤ 65535)
+    (hsz : 4 + p.token.length + CodecEncLow.optsSize p.options + 1 + p.payload.length < 2 ^ 63) :
+    CodecEncLow.encLow p limit = enc p limit :=
+  CodecEncLow.encLow_refines p limit hs hk hsz
+
+/-- … hence no `u16` / `usize` operation of the serialiser overflows, no raw copy writes outside the
+allocation it was reserved in, and `set_len` never exceeds the capacity – for every such message and
+every limit (also when the limit refuses the message: the refusal comes before the allocation) -/
+theorem serialiser_stays_inside_its_buffers_and_never_overflows (p : Packet) (limit : Option Nat)
+    (hs : p.options.Sorted) (hk : ∀ kv ∈ p.options, kv.1 ≤ 65535)
+    (hsz : 4 + p.token.length + CodecEncLow.optsSize p.options + 1 + p.payload.length < 2 ^ 63) :
+    CodecEncLow.encLow p limit ≠ .panic := by
+  rw [CodecEncLow.encLow_refines p limit hs hk hsz]
+  exact Codec.enc_never_panics p limit
+
+/-- the premise is not idle: with numbers out of order the `u16` subtraction underflows (panics) -/
+example : CodecEncLow.encLow { Packet.new with options := [(11, [[1]]), (4, [[2]])] } none = .panic := by decide
+example : CodecEncLow.encLow { Packet.new with options := [(4, [[2]]), (11, [[1], []])], payload := [7] } none =
+    enc { Packet.new with options := [(4, [[2]]), (11, [[1], []])], payload := [7] } none := by decide
 
 /-! non-vacuity: landing exactly on the limit -/
 example : enc { Packet.new with payload := List.replicate 3 0x55 } (some 8) =
